@@ -289,44 +289,25 @@ func runC11(p *core.Program, r *core.Report) {
 	if idf == nil {
 		r.Anchor("R4", "pkg/gengo/snippet.(*ident).Frag")
 	} else {
-		var ts *ast.TypeSwitchStmt
-		var in *core.Func
+		var disp *typeDispatch
 		for _, ff := range p.Funcs() {
-			if ff.Root() != idf {
+			if ff.Root() != idf || disp != nil {
 				continue
 			}
-			ast.Inspect(ff.Body, func(n ast.Node) bool {
-				if x, ok := n.(*ast.TypeSwitchStmt); ok && ts == nil {
-					ts, in = x, ff
-				}
-				return true
-			})
+			disp = typeDispatchIn(ff) // a type switch or a chain of comma-ok assertions
 		}
-		if ts == nil {
-			r.Anchor("R4", "type switch of (*ident).Frag")
+		if disp == nil {
+			r.Anchor("R4", "type dispatch of (*ident).Frag")
 		} else {
+			in := disp.In
 			iinfo := in.Info()
+			ts := disp.Pos
 			order := map[string]int{}
-			clause := map[string]*ast.CaseClause{}
-			var tdef *ast.CaseClause
-			for i, c := range ts.Body.List {
-				cc := c.(*ast.CaseClause)
-				if cc.List == nil {
-					tdef = cc
-				}
-				for _, e := range cc.List {
-					t := iinfo.TypeOf(e)
-					name := core.NamedTypeName(t)
-					if name == "" && t != nil {
-						name = t.String()
-					}
-					order[name] = i + 1
-					clause[name] = cc
-				}
-			}
+			clause := map[string]ast.Node{}
 			want := []string{"string", core.G("pkg/types.TypeName"), "reflect.Type", "go/types.Type", "go/types.Alias"}
 			var miss []string
 			for _, w := range want {
+				order[w], clause[w] = disp.arm(w)
 				if order[w] == 0 {
 					miss = append(miss, w)
 				}
@@ -334,8 +315,8 @@ func runC11(p *core.Program, r *core.Report) {
 			r.Check(len(miss) == 0, "R4", in, "ID dispatches every documented argument kind", ts.Pos(), "string, TypeName, reflect.Type, types.Type, *types.Alias", "ID has no arm for "+strings.Join(miss, ", "))
 			r.Check(order["go/types.Alias"] != 0 && order["go/types.Alias"] < order["go/types.Type"], "R4", in, "*types.Alias arm precedes the types.Type arm", ts.Pos(), "alias arm comes first",
 				"the types.Type arm comes before the *types.Alias arm and shadows it: an alias is expanded to the type it denotes instead of being referenced by name")
-			r.Check(tdef != nil && endsInPanic(iinfo, tdef.Body), "R4", in, "any other argument panics", ts.Pos(), "default arm ends in panic", "an unsupported ID argument does not panic")
-			uses := func(cc *ast.CaseClause, names ...string) bool {
+			r.Check(disp.HasDef && endsInPanic(iinfo, disp.Default), "R4", in, "any other argument panics", ts.Pos(), "default arm ends in panic", "an unsupported ID argument does not panic")
+			uses := func(cc ast.Node, names ...string) bool {
 				if cc == nil {
 					return false
 				}
@@ -367,7 +348,7 @@ func runC11(p *core.Program, r *core.Report) {
 	} else {
 		nf = flatten(p, nf) // the suffix may be rendered by a private helper
 		ninfo := nf.Info()
-		written := constArgsOf(ninfo, nf.Body, "(*strings.Builder).WriteString", "(*strings.Builder).WriteByte", "(*strings.Builder).WriteRune")
+		written := printerDelimiters(nf) // every constant the namer can emit, however it reaches the builder
 		hasAt := len(core.CallsTo(ninfo, nf.Body, true, "(*go/types.TypeParamList).At")) > 0
 		hasTP := len(core.CallsTo(ninfo, nf.Body, true, "(*go/types.Named).TypeParams")) > 0
 		set := strings.Join(written, "")
@@ -446,13 +427,43 @@ func namerRewriteRule(p *core.Program, r *core.Report, rule string) {
 	}
 	r.Check(okArg, rule, nf, "processName receives the reference's own name", pcall.Pos(), "n.processName(typeName.Name())", "processName is not applied to the Name() of the reference being rendered")
 	pp := g.PointOf(pcall)
+	// values read off the carrier once it is complete (`name := tn.String()`) carry the rewritten name too
+	carriers := map[*types.Var]bool{carrier: true}
+	for changed := true; changed; {
+		changed = false
+		ast.Inspect(nf.Body, func(n ast.Node) bool {
+			as, ok := n.(*ast.AssignStmt)
+			if !ok || len(as.Lhs) != 1 || len(as.Rhs) != 1 {
+				return true
+			}
+			v := core.VarOf(info, as.Lhs[0])
+			if v == nil || carriers[v] {
+				return true
+			}
+			if _, single := core.SingleDef(info, nf.Body, v); !single {
+				return true
+			}
+			mentions := false
+			for cv := range carriers {
+				if core.Mentions(info, as.Rhs[0], cv) {
+					mentions = true
+				}
+			}
+			if mentions && g.Dominates(pp, g.PointOf(as)) {
+				carriers[v] = true
+				changed = true
+			}
+			return true
+		})
+	}
+	isCarrier := func(e ast.Expr) bool { v := core.VarOf(info, e); return v != nil && carriers[v] }
 	isEmptyFact := func(fct cfgx.Fact) bool {
 		if fct.Tag != nil {
 			return false
 		}
 		// carrier.Len() == 0 / len(carrier) == 0 / carrier == ""
 		if b, ok := ast.Unparen(fct.Cond).(*ast.BinaryExpr); ok && (b.Op == token.EQL || b.Op == token.NEQ) {
-			if core.VarOf(info, b.X) == carrier && constStrIs(info, b.Y, "") {
+			if isCarrier(b.X) && constStrIs(info, b.Y, "") {
 				return (b.Op == token.EQL) == fct.Val
 			}
 		}
@@ -461,10 +472,10 @@ func namerRewriteRule(p *core.Program, r *core.Report, rule string) {
 			return false
 		}
 		if lc, ok := ast.Unparen(x).(*ast.CallExpr); ok {
-			if strings.HasSuffix(core.CalleeName(info, lc), ").Len") && core.VarOf(info, recvOf(lc)) == carrier {
+			if strings.HasSuffix(core.CalleeName(info, lc), ").Len") && isCarrier(recvOf(lc)) {
 				return true
 			}
-			if core.CalleeName(info, lc) == "builtin.len" && len(lc.Args) == 1 && core.VarOf(info, lc.Args[0]) == carrier {
+			if core.CalleeName(info, lc) == "builtin.len" && len(lc.Args) == 1 && isCarrier(lc.Args[0]) {
 				return true
 			}
 		}
@@ -488,7 +499,13 @@ func namerRewriteRule(p *core.Program, r *core.Report, rule string) {
 				}
 			}
 		}
-		uses := core.Mentions(info, e, carrier) && g.Dominates(pp, rp)
+		uses := false
+		for cv := range carriers {
+			if core.Mentions(info, e, cv) {
+				uses = true
+			}
+		}
+		uses = uses && g.Dominates(pp, rp)
 		if !uses {
 			// the only fallback: the reference's String() when the rewritten name is empty
 			fallback := false
